@@ -615,6 +615,21 @@ fn job_workload(master: u64, job: u64, tier: Tier) -> Vec<u8> {
     if job % 16 == 9 {
         return workload::gen_png_edge_file(&mut rng);
     }
+    if job % 16 == 11 {
+        // a member written with a sync flush every 1-3 bytes: hundreds of tiny and empty blocks,
+        // correction data that outweighs the plaintext
+        let plain = workload::gen_plaintext(&mut rng, 1600);
+        let c = workload::Compressor::ZlibFlushy {
+            level: rng.range(1, 9) as i32,
+            interval: rng.range(1, 3) as usize,
+            flushed: 100000,
+        };
+        let raw = c.compress(&plain);
+        let w = workload::Wrapper::random(&mut rng);
+        let mut f = workload::wrap(&mut rng, &w, &raw, &plain);
+        f.extend_from_slice(b"-- end --");
+        return f;
+    }
     if job % 16 == 7 {
         // expanded form hundreds of times larger than the file and than any exact-fit window
         let len = rng.range(60_000, 900_000) as usize;
